@@ -186,6 +186,8 @@ const (
 	// chunk holds at most (65535-16)/4 = 16379 of them: the 16-bit chunk length
 	// wraps beyond that and the peer cannot decode the SACK at all.
 	maxTSNOffset = 32704
+	// maxHeartbeatsOutstanding bounds the on-demand heartbeats remembered while unanswered.
+	maxHeartbeatsOutstanding = 16
 	// maxReconfigRequests is the maximum number of reconfig requests we will keep outstanding.
 	maxReconfigRequests = 1000
 
@@ -271,6 +273,9 @@ type Association struct {
 	willSendShutdownAck      bool
 	willSendShutdownComplete bool
 	shutdownCompletePending  bool
+
+	// timestamps of the on-demand heartbeats that have not been answered yet
+	heartbeatsOutstanding map[uint64]struct{}
 
 	// what ended readLoop (set before readLoopCloseCh is closed)
 	readLoopErr error
@@ -2376,6 +2381,15 @@ func (a *Association) handleHeartbeatAck(c *chunkHeartbeatAck) {
 	// as a big-endian unix nano timestamp.
 	if len(info.heartbeatInformation) == 8 {
 		ns := binary.BigEndian.Uint64(info.heartbeatInformation)
+		// Only the echo of a heartbeat this endpoint has sent, and has not had an
+		// answer to yet, is a round trip. Anything else (a stray or forged ack, a
+		// duplicate) would feed an arbitrary value into the RTO computation.
+		if _, ok := a.heartbeatsOutstanding[ns]; !ok {
+			a.log.Debugf("[%s] HB RTT: unsolicited heartbeat ack, ignoring", a.name)
+
+			return
+		}
+		delete(a.heartbeatsOutstanding, ns)
 		if ns > math.MaxInt64 {
 			// Malformed or future-unsafe value; ignore this heartbeat-ack.
 			a.log.Warnf("[%s] HB RTT: timestamp overflows int64, ignoring", a.name)
@@ -5423,6 +5437,17 @@ func (a *Association) sendActiveHeartbeatLocked() {
 	binary.BigEndian.PutUint64(buf, uint64(now)) //nolint:gosec // time.now() will never be negative
 
 	info := &paramHeartbeatInfo{heartbeatInformation: buf}
+
+	if a.heartbeatsOutstanding == nil {
+		a.heartbeatsOutstanding = map[uint64]struct{}{}
+	}
+	if len(a.heartbeatsOutstanding) >= maxHeartbeatsOutstanding {
+		// unanswered probes are not worth remembering for ever
+		for k := range a.heartbeatsOutstanding {
+			delete(a.heartbeatsOutstanding, k)
+		}
+	}
+	a.heartbeatsOutstanding[uint64(now)] = struct{}{} //nolint:gosec // see above
 
 	hb := &chunkHeartbeat{
 		chunkHeader: chunkHeader{
